@@ -83,8 +83,26 @@ def ns_cases(ctx, n):
 WITNESSES = [('act', 'SCHEDULES\n'), ('judgment', 'APPENDIXES x\n'), ('doc', 'a\x01b\n'), ('act', 'P{1 x} foo\n'), ('bill', 'P{a:b x} foo\n'),
              ('act', 'FOOTNOTE 1\n  x {{FOOTNOTE 1}}\n'), ('statement', 'ANNEXURE-A\n  x\n'), ('debateReport', 'x\n\x0e\ny\n')]
 
+def plain_line_cases(ctx, n):
+    """instances of C01_plain_line_converts: one plain line as a fragment, with a prefix - implementation and model must both give the
+    single paragraph the theorem predicts (checked here on the implementation side too)"""
+    out = [(stages.URIS[0], 'hier_block_element', 'chp_1', 'Partly * cloudy {x} SECtion 2/3\n')]
+    words = ['the', 'Minister', 'may', '*', '/', '_', '{x}', '2/3', 'SECtion', 'part', '(a)', '\u00e9t\u00e9', '\u05d0\u05d1', '50%', 'a-b', 'x.', 'P1', 'item', '}', '{', 'it\'s']
+    for _ in range(n):
+        line = ' '.join(ctx.rng.choice(words) for _ in range(ctx.rng.randint(1, 8)))
+        out.append((ctx.rng.choice(stages.URIS), 'hier_block_element', ctx.rng.choice(stages.PREFIXES), line + '\n'))
+    return out
+
 def correspondence(ctx):
-    cs = cases(ctx, ctx.n(800, 60000)) + [(stages.URIS[0], r, '', t) for r, t in WITNESSES]
+    pl = plain_line_cases(ctx, ctx.n(40, 2000))
+    for uri, root, prefix, text in pl:
+        r = impl.e2e_sx((uri, root, prefix, text))
+        want = ['E', 'p', [['eId', (prefix + '__' if prefix else '') + 'p_1']], [['T', text[:-1]]]]
+        ctx.evaluations += 1; ctx.count('plain_line_instances')
+        if r != want and not text.startswith(('P ', 'P.', 'P{')):
+            ctx.failures.append(({'stage': 'e2e', 'uri': uri, 'root': root, 'prefix': prefix, 'text': text, 'exception': None},
+                                 'a plain line did not become the one paragraph C01_plain_line_converts predicts: %r' % (r,)))
+    cs = cases(ctx, ctx.n(800, 60000)) + [(stages.URIS[0], r, '', t) for r, t in WITNESSES] + pl
     ctx._docs = cs
     stages.stage_e2e(ctx, cs)
 
@@ -139,7 +157,10 @@ LEVEL_TEXT = ('Partial. The full statement is false of the code as it stands: th
               'stage is total on the property alphabet; the grammar\'s fallback rule `inline` never fails on a non-newline scalar value; a line that starts with none of the block keywords '
               '(the FIRST literals of every block rule of the regenerated grammar) and holds no backslash and no doubled inline marker is accepted by '
               'hier_block_element through the fallback rule `line`, and to_dict makes it one p spelling exactly the line '
-              '(C01_unrecognised_line_is_a_paragraph). The model of '
+              '(C01_unrecognised_line_is_a_paragraph); and the same through the WHOLE pipeline model - pre_parse, grammar, to_dict, XML builder, '
+              'footnote resolution, normalisation, eId generation, attachment titles: converting such a line (no tab, no blank at its ends, XML-legal '
+              'characters) as a fragment returns exactly <p eId="<prefix>__p_1">line</p>, for every known FRBR URI and every prefix '
+              '(C01_plain_line_converts; its instances are also run on the implementation). The model of '
               'the whole pipeline, exception kinds included, is tied to the code by the e2e stage; totality of the grammar stage elsewhere is decided '
               'by the exception search on the implementation (6 roots x prefixes, mutations with control characters, odd attribute names, '
               'truncated/extended keywords), any failure outside the three classes being a violation.')
